@@ -7,6 +7,7 @@
 //! Exit status: 0 the property held on everything explored (known findings
 //! included), 1 at least one unlisted violation, 2 harness or usage error.
 
+mod c06;
 mod c07;
 mod c09;
 mod c13;
@@ -142,6 +143,7 @@ fn main() {
         write_evidence,
     };
     let code = match prop.as_str() {
+        "C06" => dispatch(&c06::C06, &opts, replay_file),
         "C07" => dispatch(&c07::C07, &opts, replay_file),
         "C09" => dispatch(&c09::C09, &opts, replay_file),
         "C13" => dispatch(&c13::C13, &opts, replay_file),
